@@ -543,6 +543,11 @@ void Runner::after_wait_like(Thread *t, int idx, const Op &op, OpRes &res, HStat
       if (res.t1_ns - res.t0_ns < eff_ns && !any_fault_fired(idx))
         viol("C08", "wait-timeout-early", "", fmt("wait(%d) returned the timeout error after %.3f ms", timeout, (double) (res.t1_ns - res.t0_ns) / 1e6), idx);
     }
+    if (c && c->dying_ns >= 0 && c->dying_ns + 1000000 < res.t0_ns && !any_fault_fired(idx)) {
+      // the child was dead before the call began: whatever the timeout, the state dictates its status
+      viol("C01", "no-status-for-dead-child", "op=wait", "the child had exited before wait was called, yet wait returned the timeout error", idx);
+      viol("C14", "wait-ignores-exited-child", "", "the child had exited before wait was called, yet wait returned the timeout error: the handle is stuck in the running state", idx);
+    }
     if (c && c->dying_ns >= 0 && c->dying_ns + 1000000 < res.t0_ns + eff_ns && !any_fault_fired(idx))
       viol("C08", "timeout-although-exited", "", fmt("wait timed out although the child had exited %.3f ms after the call began (timeout %.3f ms)",
                                                     (double) (c->dying_ns - res.t0_ns) / 1e6, (double) eff_ns / 1e6), idx);
